@@ -159,11 +159,14 @@ pub fn c13(ctx: &Ctx, subj: &dyn DynSubject, ty: &Ty, rep: &mut Report) {
             check_src(&src, &what)?;
         }
         // /dev/full through `store`
-        if subj.index() % 4 == 0 {
+        if subj.index() % 4 == 0 && dev_full_ok() {
             log.extra_evals += 1;
             match guard(|| subj.store(v, std::path::Path::new("/dev/full"))) {
                 Ok(Err(epserde::ser::Error::WriteError)) => {}
-                other => return Err(Fail::new("devfull", format!("store to /dev/full: {:?}", other.map(|r| r.map_err(|e| format!("{:?}", e))))).env(json!({"schedule": "/dev/full"}))),
+                other => {
+                    repair_dev_full();
+                    return Err(Fail::new("devfull", format!("store to /dev/full: {:?}", other.map(|r| r.map_err(|e| format!("{:?}", e))))).env(json!({"schedule": "/dev/full"})));
+                }
             }
         }
         Ok(())
